@@ -6,8 +6,11 @@ import (
 	"math/rand"
 	"os"
 	"strings"
+	"time"
 
 	"oss.terrastruct.com/d2/d2compiler"
+	"oss.terrastruct.com/d2/d2format"
+	"oss.terrastruct.com/d2/d2parser"
 
 	"verifharness/internal/gen"
 	"verifharness/internal/proj"
@@ -29,8 +32,17 @@ func driveShow(c *Ctx) error {
 	}
 	for n := start; n <= len(lines); n++ {
 		src := strings.Join(lines[:n], "\n") + "\n"
+		t0 := time.Now()
 		g, _, err := d2compiler.Compile("x.d2", strings.NewReader(src), nil)
-		fmt.Printf("--- after %d line(s): %q\n", n, lines[n-1])
+		fmt.Printf("--- after %d line(s): %q (compile %d ms)\n", n, lines[n-1], time.Since(t0).Milliseconds())
+		if c.Args["count"] != "" {
+			if err == nil {
+				fmt.Println("objects", len(g.Objects), "edges", len(g.Edges))
+			} else {
+				fmt.Println("ERR", firstN(err.Error(), 150))
+			}
+			continue
+		}
 		if err != nil {
 			fmt.Println("ERR", strings.ReplaceAll(err.Error(), "\n", " | "))
 			continue
@@ -53,4 +65,51 @@ func driveGenDump(c *Ctx) error {
 		}
 	}
 	return os.WriteFile(c.Out+"/gendump.txt", []byte(sb.String()), 0644)
+}
+
+// soupshow: development aid. vdrive soupshow -out DIR -arg seed=N prints the syntax soup of pipe input N.
+func init() { register("soupshow", driveSoupShow) }
+
+func driveSoupShow(c *Ctx) error {
+	var seed int64
+	fmt.Sscanf(c.Args["seed"], "%d", &seed)
+	fmt.Print(gen.Soup(rand.New(rand.NewSource(seed*17 + 3))))
+	return nil
+}
+
+// fmt2: development aid. vdrive fmt2 -out DIR -arg file=prog.d2 (or -arg seed=N for soup input N) formats the program
+// twice and prints both results when they differ.
+func init() { register("fmt2", driveFmt2) }
+
+func driveFmt2(c *Ctx) error {
+	var text string
+	if c.Args["file"] != "" {
+		b, err := os.ReadFile(c.Args["file"])
+		if err != nil {
+			return err
+		}
+		text = string(b)
+	} else {
+		var seed int64
+		fmt.Sscanf(c.Args["seed"], "%d", &seed)
+		text = gen.Soup(rand.New(rand.NewSource(seed*17 + 3)))
+	}
+	m, err := d2parser.Parse("x.d2", strings.NewReader(text), nil)
+	if err != nil {
+		fmt.Println("PARSE-ERR", firstN(err.Error(), 200))
+		return nil
+	}
+	f1 := d2format.Format(m)
+	m2, err := d2parser.Parse("x.d2", strings.NewReader(f1), nil)
+	if err != nil {
+		fmt.Printf("--- input\n%s--- formatted does not parse: %s\n%s", text, firstN(err.Error(), 200), f1)
+		return nil
+	}
+	f2 := d2format.Format(m2)
+	if f1 == f2 {
+		fmt.Println("IDEMPOTENT")
+		return nil
+	}
+	fmt.Printf("--- input\n%s--- formatted once\n%s--- formatted twice\n%s", text, f1, f2)
+	return nil
 }
